@@ -193,12 +193,16 @@ func zeroOf(T types.Type) *Term {
 	return &Term{Op: "const", Name: "nil", Typ: T}
 }
 
-func (t *Term) IsConst() bool    { return t != nil && t.Op == "const" }
-func (t *Term) IsNil() bool      { return t != nil && t.Op == "const" && t.Name == "nil" }
-func (t *Term) IsTrue() bool     { return t != nil && t.Op == "const" && t.Name == "true" }
-func (t *Term) IsFalse() bool    { return t != nil && t.Op == "const" && t.Name == "false" }
-func boolTerm(b bool) *Term      { return &Term{Op: "const", Name: strconv.FormatBool(b), Typ: types.Typ[types.Bool]} }
-func intTerm(i int64) *Term      { return &Term{Op: "const", Name: strconv.FormatInt(i, 10), Typ: types.Typ[types.Int]} }
+func (t *Term) IsConst() bool { return t != nil && t.Op == "const" }
+func (t *Term) IsNil() bool   { return t != nil && t.Op == "const" && t.Name == "nil" }
+func (t *Term) IsTrue() bool  { return t != nil && t.Op == "const" && t.Name == "true" }
+func (t *Term) IsFalse() bool { return t != nil && t.Op == "const" && t.Name == "false" }
+func boolTerm(b bool) *Term {
+	return &Term{Op: "const", Name: strconv.FormatBool(b), Typ: types.Typ[types.Bool]}
+}
+func intTerm(i int64) *Term {
+	return &Term{Op: "const", Name: strconv.FormatInt(i, 10), Typ: types.Typ[types.Int]}
+}
 func (t *Term) Int() (int64, bool) {
 	if t == nil || t.Op != "const" {
 		return 0, false
